@@ -227,6 +227,18 @@ def run_shard(ctx):
             check_case(ctx, {"gen": "pair+unsupported", "kinds": [k1, k2], "groups": groups, "inserts": {str(gap): ins}})
         ctx.obs["pair_cases"] += 1
         ctx.obs_sets["kind_pairs"].add(k1 + ">" + k2)
+    # (1b) every unsupported statement directly in front of every supported kind: what the lexer was switched to by a statement that was
+    #      skipped may not reach the next statement
+    i = 0
+    for (fam, u), k2 in itertools.product(uns, kinds):
+        i += 1
+        if not ctx.mine(i):
+            continue
+        if ctx.tier == "quick" and fam not in ("mode_word_without_continuation", "unparseable", "table_with_unknown_tail") and i % 4:
+            continue
+        r = ctx.sub_rng("uk", i)
+        check_case(ctx, {"gen": "unsupported>kind", "kinds": [k2], "groups": [G.gen_group(r, k2, 1)], "inserts": {"0": [u]}})
+        ctx.obs["unsupported_then_kind_cases"] += 1
     # (2) random sequences
     for j in range(ctx.budget(1200, 20000)):
         n = rng.randint(2, 8)
